@@ -92,7 +92,11 @@ def run_case(case, ctx, bm):
     link_tms = [tm(np.array(v, dtype=float)) for v in case["link_homes"]]
     if desc["kind"] != "urdf":
         arm.setOrigins(link_homes_global=[tm(np.array(case["base"], dtype=float)) @ t for t in link_tms])
-    has_links = arm._link_homes_global is not None and len(arm._link_homes_global) >= n
+    try:        # link frames are optional data of a model: probe through the public call instead of reading the private table
+        arm.FKLink(np.zeros(n), n - 1)
+        has_links = True
+    except Exception:
+        has_links = False
     arm.setMassProperties(link_masses=np.array(case["masses"], dtype=float),
                           mass_grav_centers=[tm(np.array(v, dtype=float)) for v in case["cgs"]])
     arm.setGrav(np.array(case["grav"], dtype=float)) if hasattr(arm, "setGrav") else None
